@@ -233,7 +233,7 @@ Definition wf_action (a : action) : Prop :=
   | SubmitLogicCall c p fs s d => addr c /\ small (length p) /\ wf_fees fs /\ (length s <= 32)%nat /\ int64 d
   | UploadUserSmartContract c p fs s d => addr c /\ small (length p) /\ wf_fees fs /\ (length s <= 32)%nat /\ int64 d
   | CompassHandover cs d => Forall (fun c => addr (fst c) /\ small (length (snd c))) cs /\ small (length cs) /\ int64 d
-  | UploadSmartContract b => True
+  | UploadSmartContract b => small (length b)
   | Batch t rs am n tmo => addr t /\ Forall addr rs /\ Forall (fun x => 0 <= x < two256) am /\ u64 n /\ u64 tmo /\
                            small (length rs) /\ small (length am)
   end.
